@@ -1,5 +1,6 @@
 import PycsepVerif.Proto
 import PycsepVerif.Model.ForecastFile
+import PycsepVerif.Model.ForecastArray
 /-!
 Driver op of C11:
 
@@ -19,6 +20,11 @@ CALLS  `-` or scale calls as in OPS and read-only calls `r,tr1,DAYS` (target_eve
 PTS    the target events / lookup points, as PROBES;   POS `-` or `row:column` of every cell on the bounding-box lattice
 records `R:rates:total` (`x` = ValueError, total `-` when the call returns none) / `S:v` / `V:v,…` / `G:row;row` (`nan`)
        all exact rationals of the exact products base · factor (/ days)
+
+`c11_arr SWAP DLO DHI ROWS PTS AOPS` → `data | total | spatial | magnitude | rates` under the factor the history leaves in
+       force, `nofit` when numpy cannot broadcast it to (cells, magnitudes), `none` when load raises
+AOPS   `-` or `s,v` (scalar) / `v,a:b:…` (1-d array) / `m,a:b_c:d_…` (2-d array, rows joined by `_`) / `t,v` / `t,none`, joined by `;`
+`c11_date START END TEST` (microseconds since the epoch) → `none` (outside the period: nothing set) or the factor set
 -/
 namespace Drive.C11
 open Proto ForecastFile
@@ -102,8 +108,40 @@ def hist (swap dlo dhi rows pts calls pos ny nx : String) : String :=
       "|".intercalate (r.2.map showObs ++ ["F:" ++ showRat r.1.scale])
   | _, _, _, _, _, _, _, _ => "bad-op"
 
+def parseColon? (s : String) : Option (List Rat) := (s.splitOn ":").mapM parseRat?
+
+def parseAOp? (s : String) : Option AOp :=
+  match s.splitOn "," with
+  | ["s", v] => (parseRat? v).map (fun q => AOp.scale (.scalar q))
+  | ["v", w] => (parseColon? w).map (fun l => AOp.scale (.vec l))
+  | ["m", w] => ((w.splitOn "_").mapM parseColon?).map (fun rows => AOp.scale (.mat rows))
+  | ["t", "none"] => some (.toTestDate none)
+  | ["t", v] => (parseRat? v).map (fun q => AOp.toTestDate (some q))
+  | _ => none
+
+def arr (swap dlo dhi rows pts aops : String) : String :=
+  match parseRat? dlo, parseRat? dhi, parseSemi? parseRow? rows, parseSemi? parseProbe? pts, parseSemi? parseAOp? aops with
+  | some dlo, some dhi, some rows, some pts, some aops =>
+    match load (swap = "1") dlo dhi rows with
+    | none => "none"
+    | some F =>
+      let w := runFactor (.scalar 1) aops
+      match dataA F w, totalA F w, spatialCountsA F w, magnitudeCountsA F w with
+      | some d, some t, some sc, some mc =>
+        "|".intercalate [showList (fun r => showRat (Soft64.fl64 r)) d, showRat t, showList showRat sc, showList showRat mc,
+          showList (fun (p : Rat × Rat × Rat) => showORat ((getRatesA F w p.1 p.2.1 p.2.2).map Soft64.fl64)) pts]
+      | _, _, _, _ => "nofit"
+  | _, _, _, _, _ => "bad-op"
+
+def date (start end_ test : String) : String :=
+  match start.toInt?, end_.toInt?, test.toInt? with
+  | some s, some e, some t => (match testDateFraction s e t with | some q => showRat q | none => "none")
+  | _, _, _ => "bad-op"
+
 def handle : List String → Option String
   | ["c11_all", swap, dlo, dhi, rows, probes, ops] => some (all swap dlo dhi rows probes ops)
   | ["c11_hist", swap, dlo, dhi, rows, pts, calls, pos, ny, nx] => some (hist swap dlo dhi rows pts calls pos ny nx)
+  | ["c11_arr", swap, dlo, dhi, rows, pts, aops] => some (arr swap dlo dhi rows pts aops)
+  | ["c11_date", s, e, t] => some (date s e t)
   | _ => none
 end Drive.C11
